@@ -67,6 +67,7 @@ def run(rep: core.Report):
     _r20e(rep)
     _r20f(rep)
     _r20g(rep)
+    _r20h(rep)
 
 
 def _r20b(rep):
@@ -311,6 +312,31 @@ def _cp_numerical_value(fn, i, loop):
         raise AnalysisError(f"{QHA}::QHA._set_heat_capacity_P_numerical: construct outside the modelled fragment ({b})")
 
 
+def _r20h(rep):
+    """What the least-squares fit minimises: model minus data, paired with (eos, volumes, energies) in that order."""
+    rep.rule("R20h", "the least-squares residual is eos(v, *p) - e (or its negative) and leastsq receives (eos, volumes, energies) in the order of the residual's parameters", 2)
+    fit = core.find_def(EOS, "EOSFit.fit")
+    res = [f for f in ast.walk(fit) if isinstance(f, ast.FunctionDef) and f is not fit]
+    if len(res) != 1:
+        raise AnalysisError("R20h: the residual function vanished from EOSFit.fit")
+    r = res[0]
+    ps = [a.arg for a in r.args.args]
+    rets = [x.value for x in ast.walk(r) if isinstance(x, ast.Return)]
+    ok = False
+    if len(rets) == 1 and len(ps) == 4:
+        e = symalg.open_expr(core.src(rets[0]))
+        want = symalg.open_expr(f"{ps[1]}({ps[2]}, *{ps[0]}) - {ps[3]}")
+        ok = symalg.same(e, want)[0] or symalg.same(-e, want)[0]
+    rep.instance("R20h", EOS, "EOSFit.fit", f"residuals({', '.join(ps)}) returns {core.src(rets[0]) if rets else '?'}", ok, "the residual is not the difference between the equation of state at the volumes and the energies: the fit minimises something else", line=r.lineno, obligation=True)
+    calls = [c for c in ast.walk(fit) if isinstance(c, ast.Call) and core.src(c.func) == "leastsq"]
+    ok2 = False
+    if len(calls) == 1:
+        kw = {k.arg: k.value for k in calls[0].keywords}
+        args = kw.get("args")
+        ok2 = core.src(calls[0].args[0]) == r.name and isinstance(args, ast.Tuple) and [core.src(x) for x in args.elts] == ["self._eos", "self._volume", "self._energy"] and core.src(calls[0].args[1]) == fit.args.args[1].arg
+    rep.instance("R20h", EOS, "EOSFit.fit", core.norm(core.src(calls[0]), 90) if calls else "<no leastsq call>", ok2, "leastsq does not receive the residual with (eos, volumes, energies) and the initial parameters", line=fit.lineno, obligation=True)
+
+
 def _r20g(rep):
     """Temperature window: which rows are fitted and over which rows the finite differences run."""
     rep.rule("R20g", "temperature window: the number of fitted temperatures is (index of the temperature closest to t_max) + 1, plus one more point for the finite differences (clipped to the number of temperatures given); every finite-difference loop runs over i = 1 .. num_elems - 2 so that i - 1 and i + 1 are fitted rows", 6)
@@ -432,4 +458,6 @@ def selftest():
     b("one temperature too few is fitted", QHA, "        num_elems = self._get_num_elems(self._all_temperatures) + 1", "        num_elems = self._get_num_elems(self._all_temperatures) - 1", "R20g", "QHA.run")
     b("heat capacity loop overruns the fitted rows", QHA, "        for i in range(1, self._num_elems - 1):\n            t = self._temperatures[i]\n            parameters = np.polyfit(", "        for i in range(1, self._num_elems + 1):\n            t = self._temperatures[i]\n            parameters = np.polyfit(", "R20g", "_set_heat_capacity_P_numerical")
     b("t_max index off by one", QHA, "            return i + 1", "            return i - 1", "R20g", "_get_num_elems")
+    b("residual adds the energies", EOS, "                return eos(v, *p) - e", "                return eos(v, *p) + e", "R20h", "residuals")
+    n("residual with the opposite sign", EOS, "                return eos(v, *p) - e", "                return e - eos(v, *p)")
     return V
